@@ -203,7 +203,7 @@ def grid(tier):
     RL = 3 if tier == "quick" else 4
     for n in range(1, RL + 1):
         for seq in itertools.product(RT_NAMES, repeat=n):
-            for section in ("Curves", "Well", "Parameter"):
+            for section in ("Curves", "Well", "Parameter", "Version"):        # ~Version is written from a deep copy of the section
                 for version in (1.2, 2.0):
                     yield {"kind": "roundtrip", "names": list(seq), "section": section, "version": version}
     for n in range(0, 3):
@@ -230,7 +230,7 @@ def random_case(rng, tier):
                 "norm": rng.random() < 0.5, "curves": rng.random() < 0.3}
     pool = ["A", "a", "", "B", "DEPT", "Gr", "GR", "x1", " ", "   "]
     return {"kind": "roundtrip", "names": [rng.choice(pool) for _ in range(rng.randint(2, 8))],
-            "section": rng.choice(["Curves", "Well", "Parameter"]), "version": rng.choice([1.2, 2.0])}
+            "section": rng.choice(["Curves", "Well", "Parameter", "Version"]), "version": rng.choice([1.2, 2.0])}
 
 
 def run_case(case, ctx):
@@ -337,7 +337,7 @@ def build_las(lasio, names, section):
     else:
         las.append_curve("DEPT", np.arange(n) * 0.5 + 100, unit="m", descr="index")
         las.append_curve("X", np.arange(n) + 1.0, unit="u", descr="x")
-        sec = las.well if section == "Well" else las.params
+        sec = las.well if section == "Well" else las.version if section == "Version" else las.params
         for i, nm in enumerate(names):
             sec.append(lasio.HeaderItem(nm, "", "v%d" % i, "item %d" % i))
     return las
@@ -361,7 +361,7 @@ def run_roundtrip(ctx, case):
     if [it.original_mnemonic for it in secops.raw_items(sec)] != mem_originals:
         ctx.violation("original-altered", "write() changed original mnemonics", case)
     # what write() emitted: the mnemonic field of every line of that section
-    title = {"Curves": "~Curve", "Well": "~Well", "Parameter": "~Params"}[section]
+    title = {"Curves": "~Curve", "Well": "~Well", "Parameter": "~Params", "Version": "~Version"}[section]
     body, on = [], False
     for ln in text.splitlines():
         if ln.startswith("~"):
